@@ -108,6 +108,34 @@ CLAIMED = {
         "Trusted: Lean kernel; Spec.Layout, Spec.Decode; pty hosting of TupimageTerminal.",
         "DESIGN.md section 5, C14",
     ),
+    "C03": (
+        "Lean 4 theorems over a transaction model (each atomic block is read-only or one complete public operation => every interleaving is a sequential run) + deterministic interleaving of the real code at transaction-boundary granularity judged by linearizability against sequential runs",
+        "Theorems in lean/Tup/Props/C03.lean (alone_refines_*, step_is_public_op, linearizable, read_results, same_description_single_id, "
+        "no_shared_id_while_free, steps_total_on_inv, inv_preserved) over Tup.Model.Txn for any number of processes and any schedule; the real "
+        "IDManager is run as 2-4 simulated processes (threads with own connections) parked at every statement that does not hold the write lock, "
+        "exhaustively (stateless DFS) for all pairs of operation kinds and randomly for longer programs; results + final tables must equal those of "
+        "some one-at-a-time ordering (computed by running the real code sequentially with the same clock values and random tapes); thorough adds 2..16 real OS processes.",
+        "PARTIAL: sqlite block atomicity/isolation, lock contention, busy time-outs and the first-open race are trusted/observed, not proved. count(None)/get_all(None) outside read_results.",
+        "DESIGN.md section 5, C03",
+    ),
+    "C12": (
+        "Lean 4 theorems crash_atomic_* / crash_inv / others_proceed over the transaction model + crash enumeration of the real code before EVERY SQL statement",
+        "Theorems in lean/Tup/Props/C12.lean: a process stopping after any number of its blocks leaves the pre-state or the post-state (for the "
+        "large-subspace get_id additionally the pre-state after its own completed clean-ups: crash_atomic_partial with a kernel-checked counter-example "
+        "to plain all-or-nothing); DbInv holds in every crashed state. Real code: forked children exit inside the trace callback before every statement "
+        "(incl. COMMIT) of every operation on several fill states; the reopened database is compared, with timestamps, against pre/post states.",
+        "PARTIAL: WAL recovery, rollback on process death and lock release are sqlite's/the OS's (observed, not proved); schema DDL not modelled.",
+        "DESIGN.md section 5, C12",
+    ),
+    "C08": (
+        "Lean 4 theorem display_shows_requested (invariant between upload table and per-terminal arrival logs) + real request scenarios judged by the adversarial-terminal specification",
+        "Theorems in lean/Tup/Props/C08.lean: for all histories of requests and environment operations, thresholds and admissible choices, at every "
+        "placeholder print Spec.printOk holds (StrictTimes hypothesis visible); medium_policy for every transmission. Real code: 1-3 in-process "
+        "TupimageTerminals on one database with generated scenarios (recycling, eviction, downscaling, SSH/method, tmux layers, terminal switches); "
+        "command streams are parsed, pixels decoded with PIL, and Spec.Store judges every print; thorough adds concurrently running CLI processes on one tty.",
+        "PARTIAL: PIL, filesystem mtime granularity and real concurrency inside a request are modelled/observed only; Model.Display is tied to the code through the C02/C04/C09 correspondences and the F oracle, not by its own K.",
+        "DESIGN.md section 5, C08",
+    ),
     "C09": (
         "Lean 4 theorems over a model of the upload's I/O program + fault enumeration of the real code at every write/flush",
         "Theorems in lean/Tup/Props/C09.lean: for every list of escape codes and every fault position/kind the error surfaces and "
